@@ -77,6 +77,12 @@ class Order:
         if t["k"] != "call":
             return False
         ok = any(m.rx.fullmatch(n) for n in names(t))
+        if t.get("inlined"):
+            # the callee's blocks follow (virtual inlining): what it reaches is visible there, site by site
+            if ok and m.where is not None:
+                ok = bool(m.where(body, b, t))
+            return ok
+        spliced = t.get("spliced", ())
         if not ok and m.reach == "must":
             # wrapper rule: the callee counts only if *all* its Ok-returning paths perform the effect
             kind, tg = self.P.resolve(t["callee"])
@@ -88,7 +94,7 @@ class Order:
                     if pl is None:
                         continue
                     for K in body.locals[pl["l"]].get("closures", []):
-                        if K in self.P.bodies and self.must_reach(K, m):
+                        if K in self.P.bodies and K not in spliced and self.must_reach(K, m):
                             ok = True
         elif not ok and m.reach:
             kind, tg = self.P.resolve(t["callee"])
@@ -104,7 +110,8 @@ class Order:
                     if pl is None:
                         continue
                     for K in body.locals[pl["l"]].get("closures", []):
-                        if K in self.P.bodies and (m.closure_filter is None or m.closure_filter(self.P.bodies[K])) \
+                        if K in self.P.bodies and K not in spliced and (
+                                m.closure_filter is None or m.closure_filter(self.P.bodies[K])) \
                                 and (any(m.rx.fullmatch(n) for n in self.reach(K))):
                             ok = True
         if ok and m.where is not None:
@@ -165,10 +172,40 @@ class Order:
         if bid not in done:
             from program import inline_helpers
             B, which = inline_helpers(self.P, bid)
-            if which and self.L is not None:
+            if B is not self.P.bodies[bid] and self.L is not None:
                 self.L._held(B)
             done[bid] = B
+            self.__dict__.setdefault("_which", {})[bid] = which
         return done[bid]
+
+    def inlined_into(self, bid):
+        """ids of the helpers / closures whose blocks are part of Order.body(bid)"""
+        self.body(bid)
+        return self._which.get(bid, [])
+
+    def covered_by_callers(self, bid):
+        """bid is a private helper or closure whose blocks are analysed as part of every function that uses it"""
+        F = self.P.bodies[bid]
+        if F.kind == "closure":
+            par = F.parent
+            return par in self.P.bodies and bid in self.inlined_into(par)
+        if F.pub or F.trait_method:
+            return False
+        callers = {c for c, _ in self.P.callers().get(bid, [])} - {bid}
+        if not callers:
+            return False
+        for c in callers:
+            C = self.P.bodies[c]
+            host = c
+            # a call made from a closure is covered if the closure itself is spliced into its parent
+            while self.P.bodies[host].kind == "closure":
+                par = self.P.bodies[host].parent
+                if par not in self.P.bodies or host not in self.inlined_into(par):
+                    return False
+                host = par
+            if bid not in self.inlined_into(host):
+                return False
+        return True
 
     def need_sites(self, body, m, floor=1):
         s = self.sites(body, m)
@@ -477,9 +514,22 @@ class Order:
         n = 0
         for bid, root, b in self.callers_of(m):
             n += 1
-            if root not in allowed_roots and bid not in allowed_roots:
+            if root not in allowed_roots and bid not in allowed_roots and not self.private_part_of(root, allowed_roots):
                 bad.append((bid, b))
         return bad, n
+
+    def private_part_of(self, fn, allowed_roots, _stack=()):
+        """fn is a non-public function all of whose callers are allowed roots or, recursively, such private parts:
+        code split off an allowed function into private helpers is still that function's code."""
+        F = self.P.bodies.get(fn)
+        if F is None or F.pub or F.trait_method or fn in _stack or len(_stack) > 6:
+            return False
+        callers = {c for c, _ in self.P.callers().get(fn, [])}
+        callers = {self.P.bodies[c].root if c in self.P.bodies else c for c in callers}
+        callers.discard(fn)
+        if not callers:
+            return False
+        return all(c in allowed_roots or self.private_part_of(c, allowed_roots, _stack + (fn,)) for c in callers)
 
     # ---- held-at ----
     def held_classes(self, body, b):
@@ -684,14 +734,52 @@ SORT_CALL = re.compile(r"core::slice::<impl \[T\]>::sort\w*|alloc::slice::<impl 
 
 def iteration_order(order, body, op):
     """How the values flowing into `op` are enumerated: list of ('btree', key type) for ordered-map iteration,
-    ('sorted-seq', element type) / ('seq', element type) for slice/Vec iteration with / without a sort call in the body."""
-    sl = order.slice_back(body, op)
+    ('sorted-seq', element type) / ('seq', element type) for slice/Vec iteration with / without a sort call in the body.
+    The backward walk over the operand's data dependences stops at the NEAREST enumerator: an `Iterator::next` call,
+    or the binding of a spliced closure's parameter to the receiver of its combinator (`iter.fold(.., |acc, x| ..)`)."""
     has_sort = any(t["k"] == "call" and any(SORT_CALL.fullmatch(n) for n in names(t))
                    for t in (body.blocks[b]["term"] for b in body.reachable()))
-    out = set()
-    for full in sl["full"]:
-        if not re.search(r"Iterator>::next(_back)?$", full):
+    cands = []
+    seen = set()
+    work = [op]
+    n = 0
+    while work and n < 400:
+        n += 1
+        o = work.pop()
+        pl = op_place(o)
+        if pl is None:
             continue
+        l = pl["l"]
+        for e in pl["p"]:
+            if isinstance(e, list) and e[0] == "i":
+                work.append({"c": {"l": e[1], "p": []}})
+        if l in seen:
+            continue
+        seen.add(l)
+        for d in body.defs().get(l, []):
+            if d[0] == "assign":
+                st = body.blocks[d[1]]["stmts"][d[2]]
+                rv = d[3]
+                if st[-1] == "<closure-param>":
+                    src = op_place(rv["ops"][0])
+                    ty = body.locals[src["l"]]["ty"]
+                    if ORDERED_ITER.search(ty) or SEQ_ITER.search(ty):
+                        cands.append(ty)
+                        continue
+                for oo in rv.get("ops", []):
+                    work.append(oo)
+                if "place" in rv:
+                    work.append({"c": rv["place"]})
+            else:
+                t = d[2]
+                full = t["callee"].get("full") or ""
+                if re.search(r"Iterator>::next(_back)?$", full) or re.search(r"Iterator>::next(_back)?::<", full):
+                    cands.append(full)
+                    continue
+                for a_ in t["args"]:
+                    work.append(a_)
+    out = set()
+    for full in cands:
         m = ORDERED_ITER.search(full)
         if m:
             out.add(("btree", m.group(4)))
